@@ -158,6 +158,7 @@ type concGen struct {
 	Calls    [][]any
 	MaxReads int
 	Broken   string
+	Init     []int // tag of each key in the initially published set (0 = absent)
 }
 
 func (g *concGen) tla() string {
@@ -196,6 +197,15 @@ func (g *concGen) tla() string {
 		}
 	}
 	fmt.Fprintf(&sb, "GenReadCalls == {%s}\n", strings.Join(cs, ", "))
+	init := make([]string, len(g.Keys))
+	for i := range init {
+		v := 0
+		if i < len(g.Init) {
+			v = g.Init[i]
+		}
+		init[i] = fmt.Sprintf("%d", v)
+	}
+	fmt.Fprintf(&sb, "GenInit == <<%s>>\n", strings.Join(init, ", "))
 	fmt.Fprintf(&sb, "GenMaxReads == %d\nGenBroken == %s\n====\n", g.MaxReads, tlaStr(g.Broken))
 	return sb.String()
 }
@@ -205,6 +215,9 @@ func (g *concGen) tla() string {
 type concW struct {
 	Pc   string `json:"pc"`
 	Step int    `json:"step"`
+	Res  []any  `json:"res"`
+	Work []int  `json:"work"`
+	Base int    `json:"base"`
 }
 
 type concR struct {
@@ -266,6 +279,11 @@ func newSchedRun(g *concGen, variant int) *schedRun {
 	if err != nil {
 		failTool("fox.New: %v", err)
 	}
+	for i, tag := range g.Init {
+		if tag != 0 {
+			r.MustHandle("GET", g.Keys[i], tagHandler(tag), fox.WithAnnotation(tagKey{}, tag))
+		}
+	}
 	return &schedRun{g: g, r: r, writers: map[int]*proc{}, readers: map[int]*proc{}, variant: variant}
 }
 
@@ -296,6 +314,12 @@ func (s *schedRun) doOp(w writer, i, step int, o [2]any) string {
 		_, err = w.Update("GET", pat, tagHandler(tag), fox.WithAnnotation(tagKey{}, tag))
 	case "Delete":
 		_, err = w.Delete("GET", pat)
+	case "Truncate":
+		if t, ok := w.(*fox.Txn); ok {
+			err = t.Truncate("GET")
+		} else {
+			err = errors.New("Truncate outside a transaction")
+		}
 	}
 	return errClass(err)
 }
@@ -437,12 +461,8 @@ func (s *schedRun) readerBody(call []any, variant int) func() []any {
 			// the special handlers are reads too: 404, 405, automatic OPTIONS, slash redirect
 			return func() []any {
 				t := tagOf(s.r.Route("GET", pat)) // the gated load; the requests below load again, freely
-				for _, m := range []string{"POST", "OPTIONS", "GET"} {
-					p := pat
-					if m == "GET" {
-						p = pat + "/"
-					}
-					req, _ := newRequest(m, "", p, "")
+				for _, q := range [][2]string{{"POST", pat}, {"OPTIONS", pat}, {"GET", pat + "/"}, {"GET", "/no/such/route"}, {"OPTIONS", "*"}, {"FOO", pat}} {
+					req, _ := newRequest(q[0], "", q[1], "")
 					s.r.ServeHTTP(newPlainWriter(), req)
 				}
 				return []any{t}
